@@ -33,8 +33,12 @@ impl Command for CommandImpl {
         } else {
             let operation = context.arguments.join(" ");
 
-            match evalexpr::eval_number(&operation) {
-                Ok(value) => CommandResult::Continue(Some(value.to_string())),
+            match evalexpr::eval(&operation) {
+                Ok(evalexpr::Value::Int(value)) => CommandResult::Continue(Some(value.to_string())),
+                Ok(value) => match value.as_number() {
+                    Ok(number) => CommandResult::Continue(Some(number.to_string())),
+                    Err(error) => CommandResult::Error(error.to_string()),
+                },
                 Err(error) => CommandResult::Error(error.to_string()),
             }
         }
